@@ -58,7 +58,7 @@ def nextGIs (k : Nat) : P (Array GI) := do
 def showGIs (a : Array GI) : String :=
   " ".intercalate (a.toList.map GI.toStr)
 
-instance : Neg GI := ⟨fun a => ⟨-a.re, -a.im⟩⟩
+
 
 def nextSym : P (PSym GI) := do
   let id ← nextNat
